@@ -70,7 +70,14 @@ def modelled : List String := [
   "ff.reduce@element_ops_amd64.go",
   "ff.reduce@element_ops_noasm.go",
   "ff.sub@element_ops_amd64.go",
-  "ff.sub@element_ops_noasm.go"
+  "ff.sub@element_ops_noasm.go",
+  "ff.<decls>@arith.go",
+  "ff.<decls>@asm.go",
+  "ff.<decls>@asm_noadx.go",
+  "ff.<decls>@doc.go",
+  "ff.<decls>@element.go",
+  "ff.<decls>@element_ops_amd64.go",
+  "ff.<decls>@element_ops_noasm.go"
 ]
 
 theorem source_pinned : modelled.all (same I3.Gen.fingerprints) = true := by decide +kernel
@@ -78,6 +85,6 @@ theorem source_pinned : modelled.all (same I3.Gen.fingerprints) = true := by dec
 theorem function_set_pinned : (["ff."] : List String).all (sameKeys I3.Gen.fingerprints) = true := by
   decide +kernel
 
-theorem modelled_nonempty : 62 = modelled.length := by decide
+theorem modelled_nonempty : 69 = modelled.length := by decide
 
 end I3.Props.C05
